@@ -39,6 +39,7 @@ def statefulCase (suite : String) (hdr : List String) (body : List (List String)
   | "stream" => some (StreamDrv.handle hdr body)
   | "shutdown" => some (ConcDrv.handleShutdown hdr body)
   | "hubsubs" => some (ConcDrv.handleHubSubs hdr body)
+  | "serverconc" => some (ConcDrv.handleServerConc hdr body)
   | _ => none
 
 def processCase (out : IO.FS.Stream) (hdr : List String) (body : Array (List String)) : IO Unit := do
